@@ -306,6 +306,48 @@ def tier_algebra_design(c: Ctx, u: Unit, fn: ast.AST, self_: str) -> bool:
     return True
 
 
+def _check_single_victim_fast_paths(c: Ctx, u: Unit, fn: ast.AST, self_: str) -> None:
+    """A fast path that deletes ONE event and returns before the general algorithm runs.  It evicts what the general algorithm would evict only if: the history is exactly one over
+    the bound, the victim is a completed event, and no event in the history was created before it (insertion order is dispatch order, not creation order)."""
+    from sa.loops import lin
+
+    H, M = f'len({self_}.event_history)', f'{self_}.max_history_size'
+    for d in [n for n in own_nodes(fn) if isinstance(n, ast.Delete) and any(isinstance(t, ast.Subscript) and U(t.value) == f'{self_}.event_history' for t in n.targets)]:
+        if q.enclosing(d, (ast.For, ast.While)) is not None:
+            continue  # the general algorithm's deletion loop
+        blk = q.block_of(d)
+        if blk is None or not any(isinstance(x, ast.Return) for x in blk[blk.index(d):]):
+            continue
+        vid = U(d.targets[0].slice)
+        conds = [x for a in q.ancestors_of(d) if isinstance(a, ast.If) and q.lexically_in(d, a, 'body') for x in (a.test.values if isinstance(a.test, ast.BoolOp) and isinstance(a.test.op, ast.And) else [a.test])]
+        # the victim event: bound together with its id
+        binds = [n for n in own_nodes(fn) if isinstance(n, ast.Assign) and isinstance(n.targets[0], ast.Tuple) and len(n.targets[0].elts) == 2 and U(n.targets[0].elts[0]) == vid]
+        vev = U(binds[0].targets[0].elts[1]) if binds else None
+        locals_ts = {n.targets[0].id for n in own_nodes(fn) if isinstance(n, ast.Assign) and isinstance(n.targets[0], ast.Name) and vev and U(n.value) == f'{vev}.event_created_at.timestamp()'}
+        one_over = any(isinstance(x, ast.Compare) and len(x.ops) == 1 and isinstance(x.ops[0], ast.Eq)
+                       and (lambda l: l is not None and {k: v for k, v in l.items() if v} == {H: 1, M: -1, 1: -1})(lin(ast.BinOp(left=x.left, op=ast.Sub(), right=x.comparators[0]), {})) for x in conds)
+        completed = vev is not None and any(U(x) in (f"{vev}.event_status == 'completed'", f'{vev}.event_completed_at is not None') for x in conds)
+
+        def is_oldest(x: ast.AST) -> bool:
+            if not (isinstance(x, ast.UnaryOp) and isinstance(x.op, ast.Not) and isinstance(x.operand, ast.Call) and U(x.operand.func) == 'any' and x.operand.args and isinstance(x.operand.args[0], ast.GeneratorExp)):
+                return False
+            ge = x.operand.args[0]
+            if len(ge.generators) != 1 or ge.generators[0].ifs or U(ge.generators[0].iter) != f'{self_}.event_history.values()' or not isinstance(ge.generators[0].target, ast.Name):
+                return False
+            v = ge.generators[0].target.id
+            t = ge.elt
+            return isinstance(t, ast.Compare) and len(t.ops) == 1 and isinstance(t.ops[0], ast.Lt) and U(t.left) == f'{v}.event_created_at.timestamp()' \
+                and (U(t.comparators[0]) in locals_ts or U(t.comparators[0]) == f'{vev}.event_created_at.timestamp()')
+
+        oldest = any(is_oldest(x) for x in conds)
+        missing = [w for w, okk in (('the history is exactly one over the bound', one_over), ('the victim is a completed event', completed), ('no event was created before the victim', oldest)) if not okk]
+        if not missing:
+            c.ok(where(u, d), 'single-victim fast path: one over the bound, victim completed and oldest by creation time — the event the general algorithm would evict')
+        else:
+            c.fail(u, f'fast path deletes {vid} without establishing: {"; ".join(missing)}', 'a fast path evicts another event than the eviction order prescribes (the first entry of the history is the first '
+                   'one dispatched, not the oldest one created; an in-flight or younger event can go while an older completed one stays)', node=d)
+
+
 @ob('C13.2', 'ORD/SHAPE', 'cleanup_event_history removes len(history) − max_history_size events, taking completed events first, then started, then pending, each oldest-first '
     '(sorted ascending by event_created_at, sliced from the front)')
 def c13_2(c: Ctx) -> None:
@@ -320,6 +362,7 @@ def c13_2(c: Ctx) -> None:
             c.fail(u, f'`{U(n)[:60]}`: every key shares one container', 'the status buckets are one and the same list: the "completed" tier contains every event, so eviction is plain oldest-first and in-flight '
                    'events are evicted while completed ones remain', node=n)
             return
+    _check_single_victim_fast_paths(c, u, fn, self_)
     if bucket_dict_design(c, u, fn, self_):
         return
     if not cls_loop and tier_algebra_design(c, u, fn, self_):
